@@ -84,6 +84,25 @@ func bbF(b geometry.AABB) string {
 	return vF(b.Center()) + " " + vF(b.Size().Scale(0.5))
 }
 
+// bbClass: like bbF, but every component as nan | +inf | -inf | bit pattern (sign / payload of a NaN is not compared)
+func bbClass(b geometry.AABB) string {
+	ext := b.Size().Scale(0.5)
+	var parts []string
+	for _, x := range []float64{b.Center().X(), b.Center().Y(), b.Center().Z(), ext.X(), ext.Y(), ext.Z()} {
+		switch {
+		case math.IsNaN(x):
+			parts = append(parts, "nan")
+		case math.IsInf(x, 1):
+			parts = append(parts, "+inf")
+		case math.IsInf(x, -1):
+			parts = append(parts, "-inf")
+		default:
+			parts = append(parts, F(x))
+		}
+	}
+	return strings.Join(parts, " ")
+}
+
 func (c *Ctx) quat() quaternion.Quaternion {
 	return quaternion.New(c.v3(), c.fl())
 }
@@ -348,6 +367,20 @@ func runC17(c *Ctx) {
 			c.Emit("c17.trs.array", trsArgs+args, outArr(t.TransformArray(pts)))
 			fp := geometry.NewAABBFromPoints(pts...)
 			c.Emit("c17.aabb.frompoints", strings.TrimSpace(args), bbF(fp))
+			c.Emit("c17.aabb.frompoints_class", strings.TrimSpace(args), bbClass(fp))
+			if k%50 == 7 {
+				// the empty list: the loop body never runs, the box is built from the ±Inf start values
+				// (centre = -Inf*0.5 + +Inf = NaN, extents = -Inf); and a list with an infinite coordinate
+				c.Emit("c17.aabb.frompoints_class", "", bbClass(geometry.NewAABBFromPoints()))
+				ip := append([]vector3.Float64{}, pts...)
+				ip[0] = vector3.New(math.Inf(1), pts[0].Y(), math.Inf(-1))
+				ia := ""
+				for _, v := range ip {
+					ia += " " + vF(v)
+				}
+				c.Emit("c17.aabb.frompoints_class", strings.TrimSpace(ia), bbClass(geometry.NewAABBFromPoints(ip...)))
+				c.Note("frompoints.empty+inf")
+			}
 			for _, q := range pts {
 				c.Emit("c17.holds.aabb_contains", bbF(fp)+" "+vF(q), "true")
 			}
